@@ -1214,7 +1214,9 @@ class Symex:
             return self.getattr(self.ev(n.value), n.attr, n)
         if isinstance(n, ast.Subscript):
             return self.subscript(n)
-        if isinstance(n, (ast.ListComp, ast.GeneratorExp, ast.SetComp)):
+        if isinstance(n, ast.GeneratorExp):
+            return self.genexp(n)
+        if isinstance(n, (ast.ListComp, ast.SetComp)):
             out = []
             self.comp(n.generators, 0, lambda: out.append(self.ev(n.elt)))
             return set(out) if isinstance(n, ast.SetComp) else out
@@ -1336,12 +1338,68 @@ class Symex:
         except TypeError:
             self.unsupported(n, f"subscript of {type(obj).__name__}")
 
-    def comp(self, gens, k, emit):
+    def genexp(self, n):
+        """A generator expression is lazy: only its outermost iterable is evaluated where the expression stands, the
+        conditions and the element when it is consumed.  It is evaluated here once (so every consumer sees a list) and
+        once more at its first consumption if a container or binding its body reads has changed in between."""
+        first = self.ev(n.generators[0].iter)
+        out = _GenList()
+        self.comp(n.generators, 0, lambda: out.append(self.ev(n.elt)), first=(first,))
+        targets = {x.id for g in n.generators for x in ast.walk(g.target) if isinstance(x, ast.Name)}
+        body = [n.elt] + [c for g in n.generators for c in g.ifs] + [g.iter for g in n.generators[1:]]
+        free = sorted({x.id for b in body for x in ast.walk(b) if isinstance(x, ast.Name)} - targets)
+        frames, module = list(self.frames), self.module
+
+        def recompute():
+            saved = (self.frames, self.module)
+            self.frames, self.module = list(frames), module
+            try:
+                fresh = []
+                self.comp(n.generators, 0, lambda: fresh.append(self.ev(n.elt)), first=(first,))
+                return fresh
+            finally:
+                self.frames, self.module = saved
+        return self._lazy_list(out, recompute, lambda: self._gen_state(frames, free))
+
+    def _lazy_list(self, out, recompute, state):
+        """``out`` (a _GenList holding the eagerly computed elements) is recomputed at its first consumption if
+        ``state()`` differs from what it is now."""
+        out._lazy = (self, recompute, state, state())
+        return out
+
+    def _callee_state(self, f):
+        """State a lazily applied function reads: the bindings of its free names in its closure."""
+        if not isinstance(f, Func) or not f.frames:
+            return ("id", id(f))
+        body = f.node.body if isinstance(f.node.body, list) else [f.node.body]
+        bound = {a.arg for a in f.node.args.args + f.node.args.kwonlyargs + f.node.args.posonlyargs}
+        free = sorted({x.id for b in body for x in ast.walk(b) if isinstance(x, ast.Name)} - bound)
+        return self._gen_state(f.frames, free)
+
+    def _gen_state(self, frames, names):
+        st = []
+        for nm in names:
+            for fr in reversed(frames):
+                if nm in fr:
+                    st.append((nm, _fingerprint(fr[nm])))
+                    break
+        return tuple(st)
+
+    def _gen_force(self, out):
+        _, recompute, state, then = out._lazy
+        out._lazy = None
+        if state() == then:
+            return
+        fresh = recompute()
+        list.clear(out)
+        list.extend(out, fresh)
+
+    def comp(self, gens, k, emit, first=None):
         if k == len(gens):
             emit()
             return
         g = gens[k]
-        it = self.ev(g.iter)
+        it = first[0] if (k == 0 and first is not None) else self.ev(g.iter)
         self.frames.append({}) if k == 0 else None
         try:
             for x in list(self.iterate(it, g.iter)):
@@ -1846,13 +1904,20 @@ class Symex:
         if name == "type" and len(args) == 1 and (_plain(args[0]) or isinstance(args[0], (list, tuple, dict, set))):
             return Ext(type(args[0]).__name__)
         if name == "map":
-            return [self.call_value(args[0], list(xs) if len(args) > 2 else [xs], {}, node)
-                    for xs in (zip(*[self.iterate(a, node) for a in args[1:]]) if len(args) > 2
-                               else self.iterate(args[1], node))]
+            def do_map():
+                return [self.call_value(args[0], list(xs) if len(args) > 2 else [xs], {}, node)
+                        for xs in (zip(*[self.iterate(a, node) for a in args[1:]]) if len(args) > 2
+                                   else self.iterate(args[1], node))]
+            # map and filter are lazy: the function is applied when the result is consumed
+            return self._lazy_list(_GenList(do_map()), do_map,
+                                   lambda: (self._callee_state(args[0]), tuple(_fingerprint(a) for a in args[1:])))
         if name == "filter":
-            if args[0] is None:
-                return [x for x in self.iterate(args[1], node) if self.truth(x, node)]
-            return [x for x in self.iterate(args[1], node) if self.truth(self.call_value(args[0], [x], {}, node))]
+            def do_filter():
+                if args[0] is None:
+                    return [x for x in self.iterate(args[1], node) if self.truth(x, node)]
+                return [x for x in self.iterate(args[1], node) if self.truth(self.call_value(args[0], [x], {}, node))]
+            return self._lazy_list(_GenList(do_filter()), do_filter,
+                                   lambda: (self._callee_state(args[0]), _fingerprint(args[1])))
         if short in ("takewhile", "dropwhile", "filterfalse") and name in (short, "itertools." + short) and len(args) == 2 \
                 and not isinstance(args[1], T):
             out, state = [], short == "dropwhile"
@@ -2437,6 +2502,78 @@ def _eq(a, b):
         return a is b or (type(a) is type(b) and a == b) or (_plain(a) and _plain(b) and a == b)
     except Exception:
         return False
+
+
+class _GenList(list):
+    """Value of a generator expression: the elements, re-evaluated at the first consumption if the state read by the
+    body changed after the expression was created (see Symex.genexp)."""
+    _lazy = None
+
+    def _force(self):
+        lz = self._lazy
+        if lz is not None:
+            lz[0]._gen_force(self)
+
+    def __iter__(self):
+        self._force()
+        return list.__iter__(self)
+
+    def __len__(self):
+        self._force()
+        return list.__len__(self)
+
+    def __getitem__(self, k):
+        self._force()
+        return list.__getitem__(self, k)
+
+    def __contains__(self, x):
+        self._force()
+        return list.__contains__(self, x)
+
+    def __eq__(self, o):
+        self._force()
+        return list.__eq__(self, o)
+
+    __hash__ = None
+
+    def __repr__(self):
+        self._force()
+        return list.__repr__(self)
+
+    def __deepcopy__(self, memo):
+        import copy
+        return [copy.deepcopy(x, memo) for x in self]
+
+    def __reduce__(self):
+        return (list, (list(self),))
+
+
+def _fingerprint(v, depth=4):
+    """Structural snapshot of a value: changes iff a container reachable from it was mutated or the value replaced."""
+    if isinstance(v, _GenList):
+        return ("gen", id(v))
+    if depth == 0 or isinstance(v, (Func, ClassRef, ModRef, Ext)):
+        return ("id", id(v))
+    if isinstance(v, list):
+        return ("list", id(v), tuple(_fingerprint(x, depth - 1) for x in v))
+    if isinstance(v, tuple):
+        return ("tuple", tuple(_fingerprint(x, depth - 1) for x in v))
+    if isinstance(v, (set, frozenset)):
+        try:
+            return ("set", id(v), frozenset(_fingerprint(x, depth - 1) for x in v))
+        except TypeError:
+            return ("set", id(v), len(v))
+    if isinstance(v, dict):
+        try:
+            return ("dict", id(v), tuple((_fingerprint(k, depth - 1), _fingerprint(x, depth - 1)) for k, x in v.items()))
+        except Exception:
+            return ("dict", id(v), len(v))
+    if isinstance(v, Obj):
+        return ("obj", id(v), tuple((k, _fingerprint(x, depth - 1)) for k, x in sorted(v.attrs.items(), key=lambda kv: kv[0])
+                                     if not callable(x)))
+    if isinstance(v, T) or _plain(v):
+        return v
+    return ("id", id(v))
 
 
 def _freeze(v):
